@@ -14,11 +14,11 @@ FIX_S3 = True   # /repo after the fix commit; the tree as found evicted by the i
 INVS = "C10_CacheSoundSeqs C10_CostOk C10_QueueBound"
 
 
-def cfg(spec, vs, qlen, chunk, maxinf, fix_s3=None, post=False, invs=INVS, maxseq=1):
-    p = os.path.join(vlib.scratch(), "ingest_%s_%d_%d_%d_%s_%d.cfg" % (spec, maxinf, qlen, chunk, "".join(ch for ch in vs if ch.isdigit()), maxseq))
+def cfg(spec, vs, qlen, chunk, maxinf, fix_s3=None, post=False, invs=INVS, maxseq=1, may_fail=False, fix_s15=True):
+    p = os.path.join(vlib.scratch(), "ingest_%s_%d_%d_%d_%s_%d_%d%d.cfg" % (spec, maxinf, qlen, chunk, "".join(ch for ch in vs if ch.isdigit()), maxseq, may_fail, fix_s15))
     with open(p, "w") as f:
-        f.write("SPECIFICATION %s\nCONSTANTS\n Actors = {1, 2}\n Vs = %s\n MaxSeq = %d\n QLen = %d\n Chunk = %d\n MaxInflight = %d\n SeenMax = %d\n Keep = 0\n FixS3 = %s\n ApplyMayFail = FALSE\n FixEmptySeen = FALSE\nINVARIANTS %s\n"
-                % (spec, vs, maxseq, qlen, chunk, maxinf, qlen, "TRUE" if (FIX_S3 if fix_s3 is None else fix_s3) else "FALSE", invs))
+        f.write("SPECIFICATION %s\nCONSTANTS\n Actors = {1, 2}\n Vs = %s\n MaxSeq = %d\n QLen = %d\n Chunk = %d\n MaxInflight = %d\n SeenMax = %d\n Keep = 0\n FixS3 = %s\n ApplyMayFail = %s\n FixS15 = %s\n FixEmptySeen = FALSE\nINVARIANTS %s\n"
+                % (spec, vs, maxseq, qlen, chunk, maxinf, qlen, "TRUE" if (FIX_S3 if fix_s3 is None else fix_s3) else "FALSE", "TRUE" if may_fail else "FALSE", "TRUE" if fix_s15 else "FALSE", invs))
         if post:
             f.write("POSTCONDITION TraceAccepted\n")
     return p
@@ -78,6 +78,11 @@ def oracle(events):
                     else:
                         held_full.add(key); part.pop(key, None)
         elif e == "done":
+            # changesets the loop forgot because their batch did not book them are no longer on their way
+            for d in ev.get("forgotten", []):
+                for j, p in enumerate(pending):
+                    if not p.get("_q") and {k: p[k] for k in d} == d:
+                        pending.pop(j); break
             # in-flight changesets that are now held leave the pending set
             pending = [p for p in pending if p.get("_q") or not (((p["a"], p["v"]) in held_full) or (p["k"] == "full" and set(range(p["lo"], p["hi"] + 1)) <= part.get((p["a"], p["v"]), set())))]
         elif e == "final":
@@ -106,12 +111,20 @@ def run(tier):
     t0 = time.time()
     violations, mismatch, known = [], [], []
     cov = {"states": 0, "transitions": 0, "traces_validated_against_impl": 0, "samples": []}
-    mcs = [("{1}", 2, 2, 2)] if tier == "quick" else [("{1}", 2, 2, 2), ("{1}", 3, 2, 2), ("{1}", 2, 1, 3)]
-    for (vs, qlen, chunk, maxinf) in mcs:
-        r = vlib.run_tlc("Ingest.tla", cfg("Spec", vs, qlen, chunk, maxinf), workers=8, timeout=3000, heap="12g", coverage=(tier == "thorough"))
+    # (Vs, QLen, Chunk, MaxInflight, ApplyMayFail, MaxSeq, time budget): with ApplyMayFail batches may end without booking
+    # their changesets (and the loop forgets them, FixS15); that instance is exhaustive with one-sequence versions and
+    # explored under a time budget with two-sequence versions
+    mcs = [("{1}", 2, 2, 2, False, 1, None), ("{1}", 2, 2, 2, True, 0, None)] if tier == "quick" else \
+          [("{1}", 2, 2, 2, False, 1, None), ("{1}", 3, 2, 2, False, 1, None), ("{1}", 2, 1, 3, False, 1, None),
+           ("{1}", 2, 2, 2, True, 0, None), ("{1}", 3, 2, 2, True, 0, None), ("{1}", 2, 2, 2, True, 1, 600)]
+    cov["incomplete_instances"] = []
+    for (vs, qlen, chunk, maxinf, may_fail, maxseq, budget) in mcs:
+        r = vlib.run_tlc("Ingest.tla", cfg("Spec", vs, qlen, chunk, maxinf, may_fail=may_fail, maxseq=maxseq), workers=8, timeout=3000, heap="12g", coverage=(tier == "thorough"), budget=budget)
+        if getattr(r, "budget_exhausted", False):
+            cov["incomplete_instances"].append([vs, qlen, chunk, maxinf, may_fail, maxseq, r.distinct])
         if r.error:
             raise vlib.ToolError("TLC Ingest: %s\n%s" % (r.error, r.output[-1200:]))
-        vlib.log("[C10] TLC Ingest Vs=%s QLen=%d Chunk=%d MaxInflight=%d: %d generated, %d distinct, violated=%s (%.0fs)" % (vs, qlen, chunk, maxinf, r.generated, r.distinct, r.violated, r.wall))
+        vlib.log("[C10] TLC Ingest Vs=%s QLen=%d Chunk=%d MaxInflight=%d ApplyMayFail=%s: %d generated, %d distinct, violated=%s (%.0fs)" % (vs, qlen, chunk, maxinf, may_fail, r.generated, r.distinct, r.violated, r.wall))
         cov["states"] += r.distinct; cov["transitions"] += r.generated
         if r.violated:
             rp = vlib.write_replay(PID, "model-" + r.violated, {"invariant": r.violated, "actions": [(n, c) for (n, c, s) in (r.ce or [])]})
@@ -180,7 +193,7 @@ def run(tier):
     for k in vlib.open_findings(PID):
         known.append("%s %s" % (k["id"], k["what"]))
     vlib.write_evidence(PID, tier, LEVEL, cov, time.time() - t0, violations=len(violations), assumptions=[
-        "in the recorded overload runs a batch that starts eventually commits (pool timeouts / SQLite interrupts are not driven); a batch that does not book its changesets is covered by the two ingest-poison scenarios only (known finding S15)",
+        "in the recorded overload runs a batch that starts eventually commits (pool timeouts / SQLite interrupts are not driven); a batch that does not book its changesets is covered by the model with ApplyMayFail = TRUE and, on the code, by the two ingest-poison scenarios (S15, repaired)",
         "the suppression of *empty* changesets by the cache is a recorded finding (S2e) and not judged here",
         "MAX_CONCURRENT = 5 in the code; the exhaustive model uses 2-3"])
     return {"violations": violations, "mismatch": mismatch, "known": known}
